@@ -1,12 +1,33 @@
 (* C15 - Tape clear/reset cycles and cross-tape misuse behave as documented.
-   Only the property theorems (closed by `exact`), the non-vacuity example and the assumption
+   Only the property theorems (closed by `exact`), the non-vacuity examples and the assumption
    audit.  Definitions: Model/TapeMachine.v (scripts over several WengertLists, registers),
-   Model/Container.v (the operations), Proofs/C15P.v, Proofs/C15Q.v.  No theorem of this file
-   is partial any more: next_unused covers every machine operation (incl. the three binary
-   batch loops and both matrix multiplications), cycle_equiv includes the frame property. *)
+   Model/Container.v (the operations), Proofs/C15P.v, Proofs/C15Q.v, Proofs/C15R.v.
+   No theorem of this file is partial.  State after the extension round (session 3):
+     - C15_cross_tape_rejected / _matmul_rejected : per step, from ANY state.  `same_kind`
+       only excludes operand pairs for which the crate has no operator at all (record x
+       container, RecordTensor x RecordMatrix: the machine reports them as skipped);
+       C15_cross_tape_never_mixes drops that hypothesis (panic or skipped, state unchanged).
+     - C15_derivs_length (per step, any state, records and container elements) and its
+       run-level form C15_derivs_length_run (any script, any interleaving, any state).
+     - C15_next_unused : every operation except clear (clear is the one operation that
+       shrinks a list: C15_clear_restarts_positions - exactly that list becomes empty,
+       nothing else changes, so positions start again at 0).
+     - C15_cycle_equiv : scripts local to ONE list against a brand-new machine, and
+       C15_cycle_equiv_wide : scripts over ANY number of lists (new lists, clears and
+       reset-all of any list, variables on any list, cross-list panics) against the machine
+       with list t emptied and no stale register; C15_local_run_is_wide: the second class of
+       scripts contains the first.
+   Remaining hypotheses: `input_ok` (an input container is well shaped) is an invariant of
+   reachable states (C15_reachable_input_ok; C15_cycle_equiv_reachable states the wide theorem
+   with "the inputs live on list t" only); it stays in the two theorems that start from an
+   ARBITRARY state.  `op_ok` asks that matrices are declared with the dimension names 0, 1 (as
+   the case language and the harness do).  `wide_run` asks that a script only reads registers
+   the comparison machine has, and that a reset-all of list t' is not issued while a register
+   the script does not own holds an object of t' (such an object is reset on the real machine
+   but does not exist on the fresh one, so the positions handed out would differ). *)
 From Coq Require Import List ZArith Bool Arith.
 From EasyML Require Import Base.Sx Model.Num Model.Tape Model.Container Model.TapeMachine
-  Proofs.TapeP Proofs.C15P Proofs.C15Q Proofs.C06P.
+  Proofs.TapeP Proofs.C15P Proofs.C15Q Proofs.C15R Proofs.C06P.
 Import ListNotations.
 
 (* Every binary operator kind (the six function kinds) between two scalar records, or two
@@ -27,6 +48,19 @@ Theorem C15_cross_tape_matmul_rejected :
   c_hist x = Some t1 -> c_hist y = Some t2 -> t1 <> t2 ->
   step ops st (TMatmul dst a b) = Some r -> r = (st, Panic).
 Proof. exact @cross_tape_matmul. Qed.
+
+(* ... and WITHOUT any hypothesis on the kinds of the two operands: whatever two registers hold,
+   if their objects live on two different lists, a binary operation (any kind, any mode) or a
+   matrix multiplication never succeeds and never changes the machine - no list grows, no
+   register is written, so no positions of two lists are ever mixed.  The outcome is a panic,
+   or (`Err 9`, only for operand pairs the crate has no operator for: record x container,
+   RecordTensor x RecordMatrix) "skipped". *)
+Theorem C15_cross_tape_never_mixes :
+  forall (R : Type) (ops : numops R) (st : @state R) o dst mode code a b t1 t2 st' v,
+  o = TBin dst mode code a b \/ o = TMatmul dst a b ->
+  obj_hist (get st a) = Some t1 -> obj_hist (get st b) = Some t2 -> t1 <> t2 ->
+  step ops st o = Some (st', v) -> st' = st /\ (v = Panic \/ v = Err (SZ 9%Z)).
+Proof. exact @cross_tape_inert. Qed.
 
 (* every derivative set (try_derivatives of a record, derivatives_for of a container element)
    has exactly one entry per tape entry *)
@@ -52,6 +86,16 @@ Theorem C15_next_unused :
   grows st st' /\ val_fresh (negb (is_matmul op)) st st' v.
 Proof. exact @next_unused. Qed.
 
+(* clear, the one operation C15_next_unused excludes: it empties exactly the named list and
+   touches no other list and no register (objects of the list become stale, they are not
+   removed); by C15_next_unused the next object created on that list sits at position 0. *)
+Theorem C15_clear_restarts_positions :
+  forall (R : Type) (ops : numops R) (st : @state R) t st' v,
+  step ops st (TClear t) = Some (st', v) ->
+  v = Ok VUnit /\ tape_of st' t = Some [] /\ (forall t2, t2 <> t -> tape_of st' t2 = tape_of st t2) /\
+  regs st' = regs st.
+Proof. exact @clear_spec. Qed.
+
 (* Clear/reset cycles.  From ANY machine state st (any earlier history on any number of lists,
    any number of earlier cycles, stale objects in other registers): after "clear list t; reset
    the inputs (any order)", a script P that is local to the inputs and list t (`local_run`: it
@@ -71,6 +115,77 @@ Theorem C15_cycle_equiv :
     tm_run ops (init (S t)) (map (fun a => recreate ops t a (get st a)) ins) = Some (st2, vs2) /\
     tm_run ops st2 P = Some (stf2, res).
 Proof. exact @cycle_equiv. Qed.
+
+(* The WIDE form of the cycle theorem: the script between / after the cycle may use ANY number
+   of lists.  From ANY machine state st: after "clear list t; reset the inputs (any order)", let
+   P be a script such that (`wide_run`, checked along the run) every operation only READS
+   registers that are inputs, registers of the arbitrary set `keep`, or registers written by an
+   earlier successful operation of P, and every reset-all of a list t' is issued in a state in
+   which no OTHER register holds an object of t'.  Nothing else is required: P may create
+   variables and containers on any list, clear any list, add lists, reset any of its registers,
+   reset-all any list, combine objects of different lists (and panic), overwrite registers.
+   Then P returns step by step - values, positions, derivative vectors, panics - exactly the
+   results it returns on the machine `fresh_start keep t st` (every list as in st except list
+   t, which is EMPTY like a new WengertList; only the registers of `keep` exist: no stale
+   object) on which the inputs are created as new variables / variables containers with the
+   same numbers; and both runs end with identical lists.  With `keep` = nothing this is "a
+   fresh tape running the same computation"; `keep` lets the computation use constants and
+   variables of other lists created before the cycle. *)
+Theorem C15_cycle_equiv_wide :
+  forall (R : Type) (ops : numops R) (st : @state R) t ins keep P st1 vs1 stf res,
+  NoDup ins -> (forall a, In a ins -> input_ok t (get st a)) ->
+  tm_run ops st (TClear t :: map TReset ins) = Some (st1, vs1) ->
+  wide_run ops (fun r => mem ins r || keep r) st1 P ->
+  tm_run ops st1 P = Some (stf, res) ->
+  exists st2 vs2 stf2,
+    tm_run ops (fresh_start keep t st) (map (fun a => recreate ops t a (get st a)) ins) = Some (st2, vs2) /\
+    tm_run ops st2 P = Some (stf2, res) /\ tapes stf2 = tapes stf.
+Proof. exact @cycle_equiv_wide. Qed.
+
+(* `input_ok` is an invariant of the machine: in any state reached from the initial machine by
+   a script that declares matrices the way the case language does (dimension names 0 and 1:
+   `op_ok`; nothing is asked of any other operation), every container is well shaped, so an
+   object is a valid input of a cycle of list t as soon as it lives on t ... *)
+Theorem C15_reachable_input_ok :
+  forall (R : Type) (ops : numops R) n script (st : @state R) vs t a,
+  Forall (@op_ok R) script -> tm_run ops (init n) script = Some (st, vs) ->
+  obj_hist (get st a) = Some t -> input_ok t (get st a).
+Proof. exact @reachable_input_ok. Qed.
+
+(* ... hence the wide cycle theorem for every history h from the initial machine, with the
+   plain hypothesis "the inputs live on list t" *)
+Theorem C15_cycle_equiv_reachable :
+  forall (R : Type) (ops : numops R) n h (st : @state R) vs0 t ins keep P st1 vs1 stf res,
+  Forall (@op_ok R) h -> tm_run ops (init n) h = Some (st, vs0) ->
+  NoDup ins -> (forall a, In a ins -> obj_hist (get st a) = Some t) ->
+  tm_run ops st (TClear t :: map TReset ins) = Some (st1, vs1) ->
+  wide_run ops (fun r => mem ins r || keep r) st1 P ->
+  tm_run ops st1 P = Some (stf, res) ->
+  exists st2 vs2 stf2,
+    tm_run ops (fresh_start keep t st) (map (fun a => recreate ops t a (get st a)) ins) = Some (st2, vs2) /\
+    tm_run ops st2 P = Some (stf2, res) /\ tapes stf2 = tapes stf.
+Proof. exact @cycle_equiv_reachable. Qed.
+
+(* every script accepted by C15_cycle_equiv is accepted by C15_cycle_equiv_wide *)
+Theorem C15_local_run_is_wide :
+  forall (R : Type) (ops : numops R) t script Q (st : @state R),
+  local_run ops Q t st script -> wide_run ops Q st script.
+Proof. exact @local_run_is_wide. Qed.
+
+(* Run-level form of C15_derivs_length.  Along ANY script (any interleaving of creations,
+   operations, clears, resets, on any lists) from ANY state: a result `Ok (VDerivs (Some d))`
+   at step k only comes from a derivatives operation (of a record or of a container element)
+   whose object has a list, and d has exactly one entry per entry of that list in the state
+   the operation ran in (the state reached by the first k operations) - in particular after
+   clears and after clear + reset. *)
+Theorem C15_derivs_length_run :
+  forall (R : Type) (ops : numops R) script (st stf : @state R) vs,
+  tm_run ops st script = Some (stf, vs) ->
+  forall k d, nth_error vs k = Some (Ok (VDerivs (Some d))) ->
+  exists a elem stk vsk t tp, nth_error script k = Some (TDerivs a elem) /\
+    tm_run ops st (firstn k script) = Some (stk, vsk) /\
+    obj_hist (get stk a) = Some t /\ tape_of stk t = Some tp /\ length d = length tp.
+Proof. exact @derivs_length_run. Qed.
 
 (* non-vacuity: two lists; x on list 0, y on list 1, a 2x2 variables matrix on each.
    x * y and the matrix product across lists panic; after some work on list 0, clear + reset of
@@ -110,8 +225,59 @@ Proof.
   split; vm_compute; reflexivity.
 Qed.
 
+(* non-vacuity of C15_cycle_equiv_wide: history on two lists; x (register 0) and a 2x2 matrix
+   (register 3) on list 0 are the inputs, y on list 1 (register 1) and a constant (register 2)
+   are kept, register 6 holds a stale product of list 0.  The script P works on BOTH lists:
+   squares x, creates a variable on list 1 and multiplies it with y, adds x and y across lists
+   (panic), makes a third list and a variable on it, takes derivatives on list 1, clears
+   list 1 and resets all its objects (allowed: the only register outside the set, 6, is on
+   list 0), takes derivatives on list 0, multiplies the matrix by itself, multiplies x by the
+   kept constant. *)
+Example C15_cycle_wide_nonvacuous :
+  let sh := [(0, 2); (1, 2)] in
+  let history := [TVar 0 0 3%Z; TVar 1 1 5%Z; TCVar 3 0 false sh [1; 2; 3; 4]%Z; TBin 6 0 2 0 0; TConst 2 7%Z] in
+  let P := [TBin 7 0 2 0 0; TVar 4 1 2%Z; TBin 5 0 2 1 4; TBin 8 0 0 0 1; TNewTape; TVar 9 2 11%Z;
+            TDerivs 5 0; TClear 1; TResetAll 1; TDerivs 7 0; TMatmul 10 3 3; TBin 11 0 2 0 2] in
+  exists st0 vs0 st1 vs1 stf res,
+    tm_run Zops6 (init 2) history = Some (st0, vs0) /\
+    NoDup [3; 0] /\ (forall a, In a [3; 0] -> input_ok 0 (get st0 a)) /\
+    tm_run Zops6 st0 (TClear 0 :: map TReset [3; 0]) = Some (st1, vs1) /\
+    wide_run Zops6 (fun r => mem [3; 0] r || mem [1; 2] r) st1 P /\
+    tm_run Zops6 st1 P = Some (stf, res) /\
+    nth 3 res (Ok VUnit) = Panic /\
+    nth 6 res Panic = Ok (VDerivs (Some [2; 5; 1]%Z)) /\
+    nth 8 res Panic = Ok (VIdx [0; 1; 2]) /\
+    nth 9 res Panic = Ok (VDerivs (Some [0; 0; 0; 0; 6; 1]%Z)).
+Proof.
+  cbv zeta. do 6 eexists. split; [vm_compute; reflexivity|].
+  split; [repeat constructor; cbn; intuition discriminate|].
+  split; [intros a [<-|[<-|[]]]; vm_compute; repeat split; reflexivity|].
+  split; [vm_compute; reflexivity|].
+  split.
+  { vm_compute. repeat split.
+    intros r Hq. do 12 (destruct r as [|r]; [try discriminate Hq; discriminate|]).
+    destruct r; discriminate. }
+  split; [vm_compute; reflexivity|]. vm_compute. repeat split; reflexivity.
+Qed.
+
+(* non-vacuity of C15_reachable_input_ok / C15_cycle_equiv_reachable: the history of the
+   example above satisfies op_ok and reaches a state with a matrix on list 0 in register 3 *)
+Example C15_reachable_nonvacuous :
+  let sh := [(0, 2); (1, 2)] in
+  let history := [TVar 0 0 3%Z; TVar 1 1 5%Z; TCVar 3 0 false sh [1; 2; 3; 4]%Z; TBin 6 0 2 0 0; TConst 2 7%Z] in
+  Forall (@op_ok Z) history /\
+  exists st vs, tm_run Zops6 (init 2) history = Some (st, vs) /\ obj_hist (get st 3) = Some 0.
+Proof. cbv zeta. split; [repeat constructor|]. do 2 eexists. split; vm_compute; reflexivity. Qed.
+
 Print Assumptions C15_cross_tape_rejected.
 Print Assumptions C15_cross_tape_matmul_rejected.
 Print Assumptions C15_derivs_length.
 Print Assumptions C15_next_unused.
+Print Assumptions C15_clear_restarts_positions.
 Print Assumptions C15_cycle_equiv.
+Print Assumptions C15_cross_tape_never_mixes.
+Print Assumptions C15_cycle_equiv_wide.
+Print Assumptions C15_local_run_is_wide.
+Print Assumptions C15_derivs_length_run.
+Print Assumptions C15_reachable_input_ok.
+Print Assumptions C15_cycle_equiv_reachable.
